@@ -133,9 +133,27 @@ def both(fmt_py, fmt_js, ty, *args):
     return mk(py, js, ty)
 
 
+def e_fstring(ctx):
+    """f'<{a[1]}|{a2}>': variables that occur only inside an f-string literal (Python only)."""
+    d = ctx.draw
+    q = d(st.sampled_from(["'", '"']))
+    parts = [d(st.sampled_from(['<', '', 'x ']))]
+    for _ in range(d(st.integers(1, 2))):
+        f = field(ctx)
+        t = f['py']
+        if q in t:
+            t = t.replace(q, "'" if q == '"' else '"') if ('\\' not in t and ("'" if q == '"' else '"') not in t) else None
+        if t is None:
+            t = 'NR'
+        parts.append('{%s}' % t + d(st.sampled_from(['', '|', ' '])))
+    return mk(d(st.sampled_from(['f', 'f', 'F'])) + q + ''.join(parts) + q, None, 'str')
+
+
 def e_str(ctx, depth=0):
     d = ctx.draw
     k = d(st.integers(0, 9 if depth < 2 else 2))
+    if k == 9 and not ctx.js and d(st.booleans()):
+        return e_fstring(ctx)
     if k <= 1:
         return sfield(ctx)
     if k == 2:
@@ -280,7 +298,9 @@ def e_key(ctx):
         m = d(st.integers(2, 3))
         return mk('NR %% %d' % m, 'NR %% %d' % m, 'int')
     if k == 5:
-        return mk('-NR', '-NR', 'int')
+        # numeric keys around zero: negatives, 0 and positives together
+        t = d(st.sampled_from(['-NR', '(NR % 3) - 1', '1 - NR', 'NR - 2', '(NR % 2) * (2 - NR)']))
+        return mk(t, t, 'int')
     return e_str(ctx, 1)
 
 
@@ -489,7 +509,7 @@ def render_clauses(q, lang, K=None):
             head += [K('DISTINCT')]
         elif q.get('distinct') == 'count':
             head += [K('DISTINCT'), K('COUNT')]
-        head.append(', '.join(render_item(it, lang, K) for it in q['items']))
+        head.append(join_items(q['items'], lang, K))
         if q.get('except'):
             clauses.append([K('EXCEPT'), ', '.join(f[lang] for f in q['except'])])
     else:
@@ -562,7 +582,20 @@ def st_select_items(ctx, nmin=1, nmax=5, stars=True, unnest=True, aliases=True, 
                 it['alias'] = d(st.sampled_from(ALIAS_POOL))
                 it['as_kw'] = d(st.sampled_from(['AS', 'as']))
             items.append(it)
+    if d(st.integers(0, 3)) == 2:
+        # blanks around the commas of the select list (` , ` / `,` / `  ,  `)
+        for it in items:
+            it['sep'] = d(st.sampled_from([', ', ',', ' , ', '  ,  ', ' ,', ',  ']))
     return items
+
+
+def join_items(items, lang, K=None):
+    out = ''
+    for i, it in enumerate(items):
+        out += render_item(it, lang, K)
+        if i + 1 < len(items):
+            out += it.get('sep', ', ')
+    return out
 
 
 def has_star(items):
